@@ -18,6 +18,24 @@ for _c in S.COMMANDS.values():
         BY_OP[(_c.op, _c.sa[1] if _c.sa else None)] = _c
 
 
+# identification strings of real units (vendor, product), as in the kernel's device lists and on common hardware: what a unit
+# calls itself must not change how the initiator library treats it
+KNOWN_IDS = [(b"TOSHIBA", b"CDROM"), (b"TOSHIBA", b"CD-ROM XM-3401TA"), (b"TOSHIBA", b"CD-ROM"), (b"TOSHIBA", b"MK5061GSYN"), (b"TOSHIBA", b"DVD-ROM SD-M1401"),
+             (b"CHINON", b"CD-ROM CDS-431"), (b"CHINON", b"CD-ROM CDS-535"), (b"DENON", b"DRD-25X"), (b"HITACHI", b"DK312C"), (b"HITACHI", b"OPEN-V"), (b"IBM", b"2104-DU3"),
+             (b"IBM", b"ULT3580-TD5"), (b"IBM", b"2145"), (b"IMS", b"CDD521/10"), (b"MAXTOR", b"XT-3280"), (b"MEDIAVIS", b"CDR-H93MV"), (b"MICROP", b"4110"),
+             (b"NEC", b"CD-ROM DRIVE:841"), (b"PHILIPS", b"PCA80SC"), (b"RODIME", b"RO3000S"), (b"SUN", b"SENA"), (b"SANYO", b"CRD-250S"), (b"SEAGATE", b"ST157N"),
+             (b"SEAGATE", b"ST8000NM0075"), (b"SONY", b"CD-ROM CDU-8001"), (b"SONY", b"SDT-9000"), (b"TEAC", b"CD-R55S"), (b"TEXEL", b"CD-ROM"), (b"QUANTUM", b"LPS525S"),
+             (b"QUANTUM", b"DLT7000"), (b"HP", b"C1750A"), (b"HP", b"Ultrium 5-SCSI"), (b"HP", b"MSL G3 Series"), (b"YAMAHA", b"CDR100"), (b"iomega", b"jaz 1GB"),
+             (b"IOMEGA", b"ZIP 100"), (b"INSITE", b"Floptical   F*8I"), (b"Generic", b"USB SD Reader"), (b"Generic-", b"SD/MMC"), (b"JMicron", b"USB to ATA/ATAPI"),
+             (b"JMicron", b"Generic"), (b"Initio", b"INIC-1610P"), (b"Feiya", b"SD/SDHC Reader"), (b"SuperTop", b"USB 2.0 SATA"), (b"ASMT", b"2105"), (b"WD", b"My Passport 0748"),
+             (b"WDC", b"WD40EFRX-68N32N0"), (b"Seagate", b"Expansion"), (b"ATA", b"Samsung SSD 860"), (b"ATA", b"ST3500418AS"), (b"LIO-ORG", b"block"), (b"NETAPP", b"LUN"),
+             (b"EMC", b"SYMMETRIX"), (b"DGC", b"RAID 5"), (b"3PARdata", b"VV"), (b"COMPAQ", b"MSA1000"), (b"STK", b"T10000B"), (b"STK", b"SL500"), (b"ADIC", b"Scalar i500"),
+             (b"HL-DT-ST", b"DVDRAM GH24NSB0"), (b"PIONEER", b"DVD-RW  DVR-111D"), (b"PLEXTOR", b"CD-R   PX-W4012A"), (b"MATSHITA", b"DVD-RAM UJ8E2"), (b"VMware", b"Virtual disk"),
+             (b"QEMU", b"QEMU HARDDISK"), (b"QEMU", b"QEMU CD-ROM"), (b"Msft", b"Virtual Disk"), (b"NECVMWar", b"VMware IDE CDR10"), (b"Kingston", b"DataTraveler 3.0"),
+             (b"SanDisk", b"Cruzer Blade"), (b"Apple", b"iPod"), (b"NOKIA", b"Nokia N95"), (b"Linux", b"scsi_debug"), (b"FreeBSD", b"iSCSI Disk"), (b"Nimble", b"Server"),
+             (b"PURE", b"FlashArray"), (b"DELL", b"PERC H730 Mini"), (b"LSI", b"MR9271-8i"), (b"AMCC", b"9650SE-2LP DISK"), (b"Promise", b"VTrak E610f")]
+
+
 class Target:
     def __init__(self, devtype=0, qualifier=0, blocksize=512, nblocks=1 << 20, vendor=b"VMON    ", product=b"SIMULATED LUN   ", rev=b"0001"):
         self.devtype = devtype
